@@ -29,7 +29,7 @@ func init() {
 		MinEvents: map[string]int64{"fault_runs": 5000, "error_items": 5000, "records_before_fault": 1000, "write_fault_runs": 2000, "write_ok_runs": 100},
 		Units: []Unit{
 			{Name: "readfaults", QShards: 4, TShards: 12, Run: c07ReadFaults},
-			{Name: "readfaults-large", Thorough: true, TShards: 6, Run: c07ReadFaultsLarge},
+			{Name: "readfaults-large", QShards: 6, TShards: 12, Run: c07ReadFaultsLarge},
 			{Name: "writefaults", QShards: 2, TShards: 8, Run: c07WriteFaults},
 			{Name: "writefaults-large", QShards: 5, TShards: 12, Run: c07WriteFaultsLarge},
 			{Name: "filefaults", Thorough: true, Run: c07FileFaults},
@@ -41,6 +41,9 @@ type faultMode struct {
 	forever, bytewise, withData bool
 }
 
+// faultErrors are the non-EOF error values a failing reader returns.
+var faultErrors = []error{errInjected, io.ErrUnexpectedEOF, io.ErrClosedPipe, io.ErrNoProgress}
+
 func (m faultMode) String() string {
 	return fmt.Sprintf("forever=%v bytewise=%v errorWithLastBytes=%v", m.forever, m.bytewise, m.withData)
 }
@@ -50,7 +53,8 @@ var faultModes = []faultMode{{false, false, false}, {true, false, false}, {false
 // faultRun decodes x through a reader failing after k bytes and applies the
 // C07 monitor. Returns false after a violation.
 func faultRun(k *K, cd *codec, x []byte, ref []item, kk int, m faultMode) bool {
-	fr := &faultReader{data: x, k: kk, bytewise: m.bytewise, forever: m.forever, withData: m.withData && kk > 0, budget: len(x) + 10000}
+	fr := &faultReader{data: x, k: kk, bytewise: m.bytewise, forever: m.forever, withData: m.withData && kk > 0, budget: len(x) + 10000,
+		err: faultErrors[(kk+len(x))%len(faultErrors)]}
 	limit := 2*len(x) + 16
 	var got []item
 	over := false
@@ -67,6 +71,7 @@ func faultRun(k *K, cd *codec, x []byte, ref []item, kk int, m faultMode) bool {
 	fail := func(kind, format string, args ...any) bool {
 		k.Input("fault_offset", kk)
 		k.Input("fault_mode", m)
+		k.Input("fault_error", fr.fail().Error())
 		k.Failf(kind, "%s: %s\n items: %s\n fault-free: %s", cd.name, fmt.Sprintf(format, args...), traceString(got), traceString(ref))
 		return false
 	}
@@ -171,7 +176,7 @@ func c07ReadFaultsLarge(c *Ctx) {
 	idx := int64(0)
 	for _, f := range c06Formats {
 		cd := codecByName(f)
-		for i := 0; i < 4; i++ {
+		for i := 0; i < c.N(1, 6); i++ {
 			c.Case(idx, func(k *K) {
 				r := k.Rand()
 				ff := f
@@ -180,6 +185,9 @@ func c07ReadFaultsLarge(c *Ctx) {
 				}
 				var x []byte
 				target := pick(r, []int{10000, 70000})
+				if !k.c.Thorough {
+					target = 10000
+				}
 				for len(x) < target {
 					x = append(x, wellFormed(r, ff, 1+r.IntN(8))...)
 				}
@@ -208,7 +216,7 @@ func c07ReadFaultsLarge(c *Ctx) {
 						offs[b+d] = true
 					}
 				}
-				for j := 0; j < 300; j++ {
+				for j := 0; j < k.c.N(60, 300); j++ {
 					offs[r.IntN(len(x)+1)] = true
 				}
 				offs[len(x)] = true
